@@ -169,11 +169,13 @@ def limit_combo(rng):
     kinds = rng.choice([['depth'], ['nodes'], ['movetime'], ['clock'], ['depth', 'nodes'], ['depth', 'movetime'],
                         ['nodes', 'clock'], ['movetime', 'clock'], ['depth', 'clock'], ['nodes', 'movetime'], ['clock', 'depth', 'nodes']])
     timed = False
+    # next to a time limit, a depth or node limit far out of reach half of the time: then the time limit must bind
+    far = ('movetime' in kinds or 'clock' in kinds) and rng.random() < 0.5
     for k in kinds:
         if k == 'depth':
-            parts += ['depth', str(rng.choice([1, 1, 2, 2, 3, 4]))]
+            parts += ['depth', str(rng.choice([60, 100, 255]) if far else rng.choice([1, 1, 2, 2, 3, 4]))]
         elif k == 'nodes':
-            parts += ['nodes', str(rng.choice([1, 2, 5, 50, 500, 5000]))]
+            parts += ['nodes', str(rng.choice([4000000000, 10 ** 12, 50000000]) if far else rng.choice([1, 2, 5, 50, 500, 5000]))]
         elif k == 'movetime':
             parts += ['movetime', str(rng.choice([0, 1, 5, 50, 200]))]
             timed = True
@@ -477,9 +479,11 @@ def session_selfplay(rng, fens):
         fen = rng.choice(fens)
         moves = []
         depth = rng.choice([3, 4, 4])
+        vary = rng.random() < 0.6          # the depth changes from move to move: a principal variation may then be
+                                           # pieced together from cache entries written by searches of other depths
         for _ in range(rng.choice([24, 32, 40])):
             e.send('position fen %s%s' % (fen, (' moves ' + ' '.join(moves)) if moves else ''))
-            e.send('go depth %d' % depth)
+            e.send('go depth %d' % (rng.choice([2, 3, 4, 5]) if vary else depth))
             bm = e.wait_for('bestmove', 120000)
             if bm is None:
                 e.log({'ev': 'deadline', 'what': 'bestmove', 't': e.now()})
@@ -569,6 +573,38 @@ def systematic_lines():
     return out
 
 
+FEN_ROW = re.compile(r'^[pnbrqkPNBRQK1-8]{1,8}$')
+
+
+def valid_fen_fields(f):
+    """a FEN of four to six fields as the engine reads it (placement, side, castling, en passant, counters)"""
+    if not 4 <= len(f) <= 6:
+        return False
+    rows = f[0].split('/')
+    if len(rows) != 8 or not all(FEN_ROW.match(r) and sum(int(c) if c.isdigit() else 1 for c in r) == 8 for r in rows):
+        return False
+    if f[0].count('K') != 1 or f[0].count('k') != 1:
+        return False
+    if f[1] not in ('w', 'b') or not (f[2] == '-' or (0 < len(f[2]) <= 4 and set(f[2]) <= set('KQkq') and len(set(f[2])) == len(f[2]))):
+        return False
+    if not (f[3] == '-' or re.match(r'^[a-h][36]$', f[3])):
+        return False
+    return all(t.isdigit() and len(t) <= 4 for t in f[4:])
+
+
+def in_scope(line):
+    """C15 assumes FEN arguments to be valid FEN.  The engine takes the four to six tokens after `position fen` (up
+    to `moves`) as the FEN; fewer than four is a line it must reject (in scope).  A line whose would-be FEN is not
+    one is cut down to its first three tokens after `fen` - still a malformed line, but without a FEN argument."""
+    t = line.split()
+    if len(t) >= 2 and t[0] == 'position' and t[1] == 'fen':
+        rest = t[2:]
+        n = rest.index('moves') if 'moves' in rest[:6] else min(len(rest), 6)
+        if n >= 4 and not valid_fen_fields(rest[:n]):
+            return ' '.join(t[:2] + rest[:3])
+    return line
+
+
 def session_c15(rng, fens, lines=None):
     e = Engine()
     try:
@@ -583,7 +619,7 @@ def session_c15(rng, fens, lines=None):
         for i in range(n):
             if close_at is not None and i == close_at:
                 break
-            line = junk_line(rng, fens) if lines is None else lines[i]
+            line = in_scope(junk_line(rng, fens) if lines is None else lines[i])
             toks = line.split()
             if toks and toks[0] == 'quit':
                 continue
@@ -615,6 +651,10 @@ def session_c15(rng, fens, lines=None):
                 e.drain(rng.choice([0, 5, 30]))
             e.close_stdin()
         else:
+            if rng.random() < 0.3:
+                # quit while a search is running (unlimited, or limited far beyond the session): the engine must still end
+                e.send(rng.choice(['go infinite', 'go infinite', 'go movetime 600000', 'go depth 200', 'go wtime 36000000 btime 36000000']))
+                e.drain(rng.choice([0, 5, 30]))
             e.send('quit')
         e.wait_exit(2500)
         e.drain(20)
@@ -706,7 +746,7 @@ def run_process_level(prop, tier, seed, verdict, cov):
         nc = 60 if tier == 'quick' else 3000
         jobs += [((lambda s: session_continuation(random.Random(s), fens)), rng.randrange(1 << 30)) for _ in range(nc)]
     if prop == 'C14':
-        ng = 4 if tier == 'quick' else 120
+        ng = 6 if tier == 'quick' else 150
         jobs += [((lambda s: session_selfplay(random.Random(s), fens)), rng.randrange(1 << 30)) for _ in range(ng)]
         nd = 3 if tier == 'quick' else 60
         jobs += [((lambda s: session_deep_limit(random.Random(s), fens)), rng.randrange(1 << 30)) for _ in range(nd)]
@@ -724,8 +764,10 @@ def run_process_level(prop, tier, seed, verdict, cov):
     per = 10 if prop != 'C15' else 25
     files = []
     # long sessions (thousands of lines) get a batch of their own so that no TLC run is much longer than the others
-    light = [x for x in sessions if len(x) <= 1500]
-    heavy = [x for x in sessions if len(x) > 1500]
+    def cost(x):          # lines, plus the move tokens TLC replays one by one for every position line
+        return len(x) + sum(len(e.get('moves', [])) for e in x if e.get('ev') == 'send' and e.get('cls') == 'position')
+    light = [x for x in sessions if cost(x) <= 1500]
+    heavy = [x for x in sessions if cost(x) > 1500]
     for i in range(0, len(light), per):
         p = os.path.join(d, 'uci-%04d.ndjson' % (i // per))
         write_batch(p, light[i:i + per])
